@@ -97,6 +97,33 @@
 (* control (run in every check): CommitAfterRead = FALSE (the position is   *)
 (* committed BEFORE the underlying read has succeeded) violates Refines.    *)
 (*                                                                         *)
+(* Where the archive starts.  ArFile(fileobj=f) reads from the CURRENT       *)
+(* position of f: ar data embedded behind a prefix (a self-extracting stub, *)
+(* a container record, an earlier archive) is handed over as a file object  *)
+(* positioned at `base` > 0.  arch is the whole stream of f: base prefix    *)
+(* cells (they look like a global header: a reader that rewinds f meets a   *)
+(* decoy), then the archive.  The index walk starts at fp[0] = base and the *)
+(* member offsets are ABSOLUTE positions of f (offset = fp.tell() behind    *)
+(* the header), because every later call does fp.seek(cur).  Bases = the    *)
+(* prefix lengths explored (by name the archive is the file: base = 0);     *)
+(* IOPEN lines carry base, the harness hands ArFile a real file object of   *)
+(* the kind positioned behind a prefix of that class (0 / odd / even).      *)
+(* Negative control (run in every check): TellOffsets = FALSE (offsets from *)
+(* a running count that takes the global header for byte 0 of f) lists the  *)
+(* members correctly but shifts every data window: IndexExact violated.     *)
+(*                                                                         *)
+(* Results belong to the caller.  getnames() builds a new list per call    *)
+(* (GetNames; FreshLists = TRUE, the code), so a caller editing a list it  *)
+(* was handed (CallerEdits = ACallerEdits of the reference: no action of   *)
+(* the archive) cannot change a later answer: NamesExact (every getnames() *)
+(* = the reference's ANames) is checked on every transition.  Negative     *)
+(* control (run in every check): FreshLists = FALSE (one memoised list,    *)
+(* handed out again and again) violates NamesExact after one edit.         *)
+(* getmembers() / .members of the code under test hand out the INTERNAL    *)
+(* list (documented "same as getmembers()", read-only by convention): a    *)
+(* caller editing THAT list does change later answers on the unchanged     *)
+(* tree -- reported to the lead, executed as a diagnostic only (c06.py).   *)
+(*                                                                         *)
 (* This module is about ONE archive whose file does not change.  What      *)
 (* happens when the process opens several archives under the same path     *)
 (* name (file rewritten / renamed into place, earlier members left         *)
@@ -109,11 +136,14 @@ CONSTANTS Modes,           \* subset of {"shared", "byname"}
           IterYieldsAll,   \* TRUE: __iter__ as repaired (225a5e1); FALSE: the old single-line generator
           FdKinds,         \* subset of {"none", "same", "less", "more"}: what is underneath a shared file object
           TrustFd,         \* FALSE: the size of the descriptor is never consulted (the code); TRUE: negative control
-          CommitAfterRead  \* TRUE: __cur is taken from fp.tell() AFTER the underlying read (the code); FALSE: negative control
+          CommitAfterRead, \* TRUE: __cur is taken from fp.tell() AFTER the underlying read (the code); FALSE: negative control
+          Bases,           \* prefix lengths (cells in front of the global header in the caller's file object) explored
+          TellOffsets,     \* TRUE: member offsets are fp.tell() behind the header (the code); FALSE: negative control
+          FreshLists       \* TRUE: getnames() builds a new list per call (the code); FALSE: negative control
 
-VARIABLES arch, mode, fdk, pc, table, byname, cur, fp, ret
+VARIABLES arch, mode, fdk, pc, table, byname, cur, fp, ret, base, ncache
 
-ivars == <<arch, mode, fdk, pc, table, byname, cur, fp, ret>>
+ivars == <<arch, mode, fdk, pc, table, byname, cur, fp, ret, base, ncache>>
 vars  == <<rvars, ivars>>
 
 GL == 2     \* cells of the global header
@@ -129,8 +159,12 @@ PCells(a, k) == IF Len(a[k].data) % 2 = 1 THEN <<Cell(0, 0, NL)>> ELSE <<>>
 RECURSIVE ArchUpTo(_, _)
 ArchUpTo(a, k) == IF k = 0 THEN GCells
                   ELSE ArchUpTo(a, k - 1) \o HCells(k) \o DCells(a, k) \o PCells(a, k)
+\* what is in front of the archive in the caller's file object: b cells that look like (decoy) global headers
+PreCells(b)   == [j \in 1..b |-> Cell(0, 0, IF j % 2 = 1 THEN HGLOBAL ELSE NL)]
 ArchOf(a)     == ArchUpTo(a, Len(a))
-TrueOff(a, k) == Len(ArchUpTo(a, k - 1)) + HL      \* 0-based offset of the first data byte of member k
+StreamOf(a, b) == PreCells(b) \o ArchOf(a)
+TrueOff(a, k) == Len(ArchUpTo(a, k - 1)) + HL      \* 0-based offset of the first data byte of member k IN THE ARCHIVE
+NoCache == <<0 - 1>>                               \* no names list memoised
 
 \* ---- the underlying file object: read(n) / readline(lim) at 0-based position p
 FRead(p, n) == SubSeq(arch, p + 1, Lo(p + n, Len(arch)))
@@ -151,14 +185,16 @@ IRes(k, v, n) == [k |-> k, v |-> v, n |-> n]
 NoRet == IRes("-", <<>>, 0)
 
 Init == /\ RInit
-        /\ arch = ArchOf(mem)
         /\ mode \in Modes
         /\ fdk \in (IF mode = "byname" THEN {"same"} ELSE FdKinds)
+        /\ base \in (IF mode = "byname" THEN {0} ELSE Bases)
+        /\ arch = StreamOf(mem, base)
+        /\ ncache = NoCache
         /\ pc = "global"
         /\ table = <<>>
         /\ byname = [nm \in Names |-> 0]
         /\ cur = [m \in 1..MaxMembers |-> 0]
-        /\ fp = [h \in 0..MaxMembers |-> IF h = 0 THEN 0 ELSE -1]
+        /\ fp = [h \in 0..MaxMembers |-> IF h = 0 THEN base ELSE -1]     \* the file object is handed over AT base
         /\ ret = NoRet
 
 SetFp(h, p) == fp' = [fp EXCEPT ![h] = p]
@@ -168,14 +204,14 @@ Global == /\ pc = "global"
           /\ LET buf == FRead(fp[0], GL) IN
              /\ pc' = IF buf = GCells THEN "header" ELSE "error"
              /\ SetFp(0, fp[0] + Len(buf))
-          /\ UNCHANGED <<rvars, arch, mode, fdk, table, byname, cur, ret>>
+          /\ UNCHANGED <<rvars, arch, mode, fdk, table, byname, cur, ret, base, ncache>>
 
 \* ArMember.from_file + append + members_dict[name] = member
 Header == /\ pc = "header"
           /\ LET buf == FRead(fp[0], HL) IN
              IF buf = <<>>                         \* end of archive: the index is complete
              THEN /\ pc' = "ready" /\ AOpen
-                  /\ (Emit => PrintT(<<"IOPEN", ToJson([a |-> mem, mode |-> mode, fd |-> fdk])>>))
+                  /\ (Emit => PrintT(<<"IOPEN", ToJson([a |-> mem, mode |-> mode, fd |-> fdk, base |-> base])>>))
                   /\ SetFp(0, IF mode = "shared" THEN fp[0] ELSE -1)     \* by name: `with open(...)` closes it
                   /\ UNCHANGED <<table, byname, cur>>
              ELSE IF Len(buf) < HL \/ buf[1].own # 0 \/ buf[1].b # HFIELDS \/ buf[HL] # Cell(0, buf[1].i, NL)
@@ -187,7 +223,8 @@ Header == /\ pc = "header"
                   /\ SetFp(0, fp[0] + HL)
                   /\ UNCHANGED <<rvars, table, byname, cur>>
              ELSE LET k   == buf[1].i              \* the fields of header k
-                      off == fp[0] + HL            \* fp.tell() after the header
+                      off == IF TellOffsets THEN fp[0] + HL      \* fp.tell() after the header
+                             ELSE fp[0] - base + HL               \* (running count from the global header = "byte 0")
                       new == [name |-> mem[k].name, size |-> Len(mem[k].data), id |-> k, off |-> off]
                   IN /\ pc' = "skip"
                      /\ SetFp(0, off)
@@ -195,13 +232,13 @@ Header == /\ pc = "header"
                      /\ byname' = [byname EXCEPT ![new.name] = Len(table) + 1]
                      /\ cur' = [cur EXCEPT ![Len(table) + 1] = off]
                      /\ UNCHANGED rvars
-          /\ UNCHANGED <<arch, mode, fdk, ret>>
+          /\ UNCHANGED <<arch, mode, fdk, ret, base, ncache>>
 
 Skip == /\ pc = "skip"
         /\ LET sz == table[Len(table)].size IN
            SetFp(0, fp[0] + (IF sz % 2 = 0 \/ ~PadOdd THEN sz ELSE sz + 1))
         /\ pc' = "header"
-        /\ UNCHANGED <<rvars, arch, mode, fdk, table, byname, cur, ret>>
+        /\ UNCHANGED <<rvars, arch, mode, fdk, table, byname, cur, ret, base, ncache>>
 
 ----------------------------------------------------------------------------
 \* ---- ArMember file interface
@@ -244,7 +281,7 @@ IApply(m, r, newcur, newfp) ==
    /\ ret' = r
    /\ cur' = [cur EXCEPT ![m] = newcur]
    /\ SetFp(H(m), newfp)
-   /\ UNCHANGED <<arch, mode, fdk, pc, table, byname>>
+   /\ UNCHANGED <<arch, mode, fdk, pc, table, byname, base, ncache>>
 
 IRd(m, size) == LET r == RdStep(m, cur[m], fp[H(m)], size) IN IApply(m, IRes("b", <<r.buf>>, 0), r.cur, r.fp)
 IRl(m, lim)  == LET r == RlStep(m, cur[m], fp[H(m)], lim)  IN IApply(m, IRes("b", <<r.buf>>, 0), r.cur, r.fp)
@@ -297,7 +334,22 @@ FaultLines(m, k) == /\ AFault(m, "lines", k)
                     /\ LET r == RlLoopK(m, cur[m], fp[H(m)], k) IN IApply(m, IRes("x", <<>>, 0), r.cur, r.fp)
 Tell(m)          == ATell(m)         /\ ITell(m)
 
-Next == \/ Global \/ Header \/ Skip
+\* ---- getnames() and what callers do with results
+NamesNow == [k \in 1..Len(table) |-> table[k].id]
+GetNames == /\ ANames /\ pc = "ready"
+            /\ IF FreshLists THEN /\ ret' = IRes("n", <<NamesNow>>, 0) /\ UNCHANGED ncache
+               ELSE LET l == IF ncache = NoCache THEN NamesNow ELSE ncache
+                    IN ret' = IRes("n", <<l>>, 0) /\ ncache' = l
+            /\ UNCHANGED <<arch, mode, fdk, pc, table, byname, cur, fp, base>>
+\* the caller edits in place the list it was handed: its own list (the code) / the memoised one (negative control)
+CallerEdits == /\ ACallerEdits /\ pc = "ready"
+               /\ IF FreshLists \/ ncache = NoCache THEN UNCHANGED ncache
+                  ELSE \/ ncache # <<>> /\ ncache' = Tail(ncache)
+                       \/ Len(ncache) <= MaxMembers /\ ncache' = Append(ncache, 0)
+                       \/ ncache' = [k \in 1..Len(ncache) |-> ncache[Len(ncache) + 1 - k]]
+               /\ UNCHANGED <<arch, mode, fdk, pc, table, byname, cur, fp, ret, base>>
+
+Next == \/ Global \/ Header \/ Skip \/ GetNames \/ CallerEdits
         \/ \E m \in 1..Len(mem) :
               \/ Read(m) \/ ReadLine(m) \/ ReadLines(m) \/ Tell(m)
               \/ \E n \in RdSizes \cup {-1} : ReadN(m, n)
@@ -310,7 +362,7 @@ Next == \/ Global \/ Header \/ Skip
 
 Spec == Init /\ [][Next]_vars
 \* ret, aret, aidx, am are outputs
-ImplView == <<mem, opened, pos, mode, fdk, pc, table, byname, cur, fp>>
+ImplView == <<mem, opened, pos, mode, fdk, pc, table, byname, cur, fp, base, ncache>>
 
 ----------------------------------------------------------------------------
 TypeOK == /\ RTypeOK
@@ -318,10 +370,11 @@ TypeOK == /\ RTypeOK
           /\ mode \in Modes
           /\ fdk \in {"none", "same", "less", "more"} /\ (mode = "byname" => fdk = "same")
           /\ \A h \in 0..MaxMembers : fp[h] \in -1..(Len(arch) + SeekMax)     \* seeking a file past its end is legal
-          /\ arch = ArchOf(mem)
+          /\ base \in Bases \cup {0} /\ (mode = "byname" => base = 0)
+          /\ arch = StreamOf(mem, base)
 
 \* the member table is exact: right members, right order, true offsets, last-of-name lookup
-Entry(k) == [name |-> mem[k].name, size |-> Len(mem[k].data), id |-> k, off |-> TrueOff(mem, k)]
+Entry(k) == [name |-> mem[k].name, size |-> Len(mem[k].data), id |-> k, off |-> base + TrueOff(mem, k)]
 IndexExact ==
    /\ pc # "error"
    /\ Len(table) <= Len(mem)
@@ -341,7 +394,9 @@ Refines == pc = "ready" =>
 Proj(r, m) == [k |-> r.k,
                v |-> [a \in 1..Len(r.v) |-> [j \in 1..Len(r.v[a]) |-> IF r.v[a][j].own = m THEN r.v[a][j].i ELSE 0]],
                n |-> r.n]
-SameResult == [][(pc' = "ready" /\ am' # 0) => Proj(ret', am') = aret']_vars
+SameResult == [][(pc' = "ready" /\ am' # 0 /\ ret'.k # "n") => Proj(ret', am') = aret']_vars
+\* every getnames() answers what the reference's ANames answers, whatever callers did to earlier answers
+NamesExact == [][ret'.k = "n" => (aret'.k = "n" /\ ret'.v = aret'.v)]_vars
 \* no cell outside the member is ever returned
-Isolation  == [][\A a \in 1..Len(ret'.v) : \A j \in 1..Len(ret'.v[a]) : ret'.v[a][j].own = am']_vars
+Isolation  == [][ret'.k # "n" => \A a \in 1..Len(ret'.v) : \A j \in 1..Len(ret'.v[a]) : ret'.v[a][j].own = am']_vars
 =============================================================================
